@@ -141,11 +141,22 @@ func JSONGetTime(val *fastjson.Value, prop string) time.Time {
 	return t
 }
 
+// xsdUnmarshal shields the decoders from the xsd:duration parser, which indexes past the end of
+// some malformed inputs (a lone "-"): those are reported as errors like any other malformed value.
+func xsdUnmarshal(data []byte, d *time.Duration) (err error) {
+	defer func() {
+		if r := recover(); r != nil {
+			err = fmt.Errorf("invalid xsd:duration %q", data)
+		}
+	}()
+	return xsd.Unmarshal(data, d)
+}
+
 func JSONGetDuration(val *fastjson.Value, prop string) time.Duration {
 	if str := val.Get(prop).GetStringBytes(); len(str) > 0 {
 		// the encoder writes xsd:duration
 		var d time.Duration
-		if err := xsd.Unmarshal(str, &d); err == nil {
+		if err := xsdUnmarshal(str, &d); err == nil {
 			return d
 		}
 		// be lenient with documents using Go's duration format
